@@ -10,6 +10,11 @@ func fnCopy(ctx *cmdContext, args map[string]any) (output respValue, err error) 
 	destKeyName := args["destination"].(string)
 	_, replace := args["replace"]
 
+	if sourceKeyName == destKeyName {
+		output.data = respErrorString("ERR source and destination objects are the same")
+		return
+	}
+
 	_, useOtherDb := args["destination-db"].(int64)
 	dds := ctx.dsc.ds
 	if useOtherDb {
